@@ -458,7 +458,10 @@ def explore(ctx):
             ctx.note("mingus.core.keys._key_cache is not a dict on this tree: memo histories ran without a cold start")
 
 
-# ---------------------------------------------------------------------------------------
-# known findings (see tools/kf_c04.json): none unless proposed
-# ---------------------------------------------------------------------------------------
-KNOWN = {}
+# Predicate for the case that Key('') -> IndexError is recorded as a known finding instead of being
+# repaired by fixes_proposed/c04_key_object_empty_string.diff (no entry is proposed: the fix is a
+# one-line reordering).
+KNOWN = {
+    "key_object_of_empty_string_raises_indexerror": lambda rec: rec["clause"] == "reject" and rec["case"] == ""
+    and rec["site"] == "Key('')" and str(rec["observed"]).startswith("IndexError"),
+}
